@@ -315,7 +315,7 @@ func pools(quick bool) []poolDef {
 	// flat pool again, every set (<=2) built with one more pattern registered and deleted (node merges)
 	ps = append(ps, poolDef{name: "flat-after-delete", patterns: flatQ, paths: rsx.GenPaths([]string{"a", "b", "ab"}, 2), hosts: []string{""}, k: 2, opts: []int{rsx.SlashNone, rsx.SlashIgnore}, afterDelete: true})
 	// option lists: a mode switched on and the other explicitly off, both off, one off over a router-wide mode
-	optPats := []string{"/a", "/a/", "/{p0}", "/{p0}/", "/a/b", "/a/b/", "/*{c0}", "/*{c0}/"}
+	optPats := []string{"/", "/a", "/a/", "/{p0}", "/{p0}/", "/a/b", "/a/b/", "/*{c0}", "/*{c0}/"}
 	allOpts := []int{rsx.SlashNone, rsx.SlashIgnore, rsx.SlashRedirect, rsx.SlashIgnoreThenRedirectOff, rsx.SlashRedirectThenIgnoreOff, rsx.SlashBothOff, rsx.SlashRedirectOff, rsx.SlashIgnoreOff}
 	for _, pf := range []int{rsx.SlashNone, rsx.SlashIgnore, rsx.SlashRedirect} {
 		ps = append(ps, poolDef{name: fmt.Sprintf("option-lists-global%d", pf), patterns: optPats, paths: rsx.GenPaths([]string{"a", "b"}, 2), hosts: []string{""}, k: 2, opts: allOpts, prof: rsx.Profile{Slash: pf},
